@@ -47,11 +47,13 @@ CARRIERS = [
 def scaling_flag_ids(tn):
     """ids of the locals that decide whether an operator is scaled: initialised as `<table>[..][..] || m_scaleModulators`"""
     ids = set()
+    sd = single_defs(tn.d)
     for b, j, st in tn.cfg.stmts():
         if st['s'].get('k') == 'DeclStmt':
             for v in st['s']['decls']:
                 i = strip(v.get('init')) if v.get('init') is not None else None
-                if i is not None and i.get('k') == 'BinaryOperator' and i.get('op') == '||' and mentions(i, member_named('m_scaleModulators')):
+                # (the member may have been cached in a const local first)
+                if i is not None and i.get('k') == 'BinaryOperator' and i.get('op') == '||' and mentions(subst(i, sd), member_named('m_scaleModulators')):
                     ids.add(v['id'])
     return ids
 
@@ -104,7 +106,7 @@ def level_local(tn):
     """id of the local written to the total-level registers: the value argument of writeRegI(.., 0x40 + .., v)"""
     for x in walk(tn.tree):
         if isinstance(x, dict) and 'callee' in x and short(callee_name(x)) == 'writeRegI' and len(x.get('a', [])) >= 4 and strip(x['a'][3]).get('k') == 'DeclRefExpr':
-            if any(isinstance(y, dict) and const_of(y) == 0x40 for y in walk(x['a'][2])):
+            if any(isinstance(y, dict) and const_of(y) == 0x40 for y in walk(subst(x['a'][2], single_defs(tn.d)))):
                 return strip(x['a'][3])['id']
     return None
 
@@ -316,11 +318,16 @@ def analyse(facts, tier):
         if s.get('k') == 'DeclStmt':
             for v in s['decls']:
                 if v['id'] in SCALE_IDS and 'init' in v:
-                    i = strip(canon_access(v['init'], al_tn))      # `row = T[alg]; *(row + op)` reads as T[alg][op]
+                    i = strip(canon_access(subst(v['init'], single_defs(tn.d)), al_tn))      # `row = T[alg]; *(row + op)` reads as T[alg][op]
                     # <carrier table>[algorithm][operator] || m_scaleModulators: the left operand is a doubly subscripted local table
                     l_ = strip(i['l'])
                     okd = i.get('k') == 'BinaryOperator' and i['op'] == '||' and l_.get('k') == 'ArraySubscriptExpr' and strip(l_.get('b')).get('k') == 'ArraySubscriptExpr' and \
                         mentions(i['r'], member_named('m_scaleModulators'))
+                    if okd:
+                        # the row is selected by the algorithm bits of the cached patch: fbalg & 7 (directly, or through a local)
+                        a_ = strip(subst(strip(l_['b'])['i'], single_defs(tn.d)))
+                        if a_.get('k') == 'BinaryOperator' and a_.get('op') == '&' and 7 in (const_of(a_['l']), const_of(a_['r'])) and mentions(a_, member_named('fbalg')):
+                            oka = True
                 if 'init' in v:
                     i = strip(v['init'])
                     if i.get('k') == 'BinaryOperator' and i['op'] == '&' and const_of(i['r']) == 7 and mentions(i['l'], member_named('fbalg')):
